@@ -141,8 +141,9 @@ def delete_alloc(c):
 
 
 def reshape_move(src, rc, dst, how_src='cur', how_dst='cur',
-                 consumers_how='cur'):
-    """move inventory rc and its usage from src to dst."""
+                 consumers_how='cur', also=None, how_also='cur'):
+    """move inventory rc and its usage from src to dst; `also`: a third
+    provider listed with the inventory it already has."""
     def b(d):
         cur = {}
         for (p, k), f in d.inventories.items():
@@ -168,13 +169,18 @@ def reshape_move(src, rc, dst, how_src='cur', how_dst='cur',
                          'consumer_generation': cgen_of(d, c, consumers_how),
                          'consumer_type': cons['type'] or 'INSTANCE'}
             tag['cgen'][c] = allocs[c]['consumer_generation']
+        invs = {
+            src: {'resource_provider_generation':
+                  g_of(d, src, how_src), 'inventories': s_inv},
+            dst: {'resource_provider_generation':
+                  g_of(d, dst, how_dst), 'inventories': d_inv}}
+        if also is not None:
+            invs[also] = {'resource_provider_generation':
+                          g_of(d, also, how_also),
+                          'inventories': dict(cur.get(also, {}))}
+            tag['pgens'].append((also, g_of(d, also, how_also)))
         r = Req('POST', '/reshaper', '1.39', {
-            'inventories': {
-                src: {'resource_provider_generation':
-                      g_of(d, src, how_src), 'inventories': s_inv},
-                dst: {'resource_provider_generation':
-                      g_of(d, dst, how_dst), 'inventories': d_inv}},
-            'allocations': allocs}, roles='service')
+            'inventories': invs, 'allocations': allocs}, roles='service')
         r['tag'] = tag
         return r
     return b
@@ -254,6 +260,15 @@ def scenarios_c05():
                 bb = alt[a]
             out.append(('%s:%s|%s:%s' % (a, ha, bb, hb),
                         {'A': writers[a](ha), 'B': writers[bb](hb)}))
+    # a reshape that lists a provider with the inventory it already has,
+    # racing writers of that provider
+    for wname in ('traits1', 'aggs1', 'invs1', 'inv'):
+        for hb in ('cur', 'stale'):
+            out.append(('reshape listing E unchanged|%s:%s' % (wname, hb), {
+                'A': reshape_move(R, 'VCPU', C, also=E),
+                'B': writers[wname](hb)}))
+    out.append(('reshape listing E unchanged|claim', {
+        'A': reshape_move(R, 'VCPU', C, also=E), 'B': derived['claim']}))
     # the same request twice (identical data, same generation): the second
     # one to commit finds nothing left to change, yet is stale
     for a in names:
@@ -671,8 +686,15 @@ def judge(pid, scen_name, reqs, d0, result, serial, res, use_serial=True):
                 if seq[i][1] != n:
                     continue
                 before, after = seq[i - 1][2], seq[i][2]
-                if rp_facet(before, p) != rp_facet(after, p):
-                    changed_p.add((n, p))
+                own = rp_facet(before, p) != rp_facet(after, p)
+                # a request carrying generations for SEVERAL providers (a
+                # reshape) is applied as a whole: each of them must still be
+                # current where the request's changes are committed, also
+                # the ones whose own data the request leaves as it is
+                if own or (len(pg) > 1 and dbdump.diff(
+                        before, after, with_gen=False)):
+                    if own:
+                        changed_p.add((n, p))
                     bg = before.providers[p]['generation'] \
                         if p in before.providers else None
                     if bg != g:
